@@ -19,7 +19,7 @@ import numpy as np
 
 from .. import tlc
 from ..cases import check_only
-from ..lattice import quat_N, octahedral_group
+from ..lattice import quat_N, octahedral_group, quat_to_matrix
 from ..runs import batch_validate
 
 LIM = 2 ** 20        # integers sent to TLC stay far below 2^31 (TLC stops on overflow, it never wraps)
@@ -205,7 +205,7 @@ def joint_specs():
     return out
 
 
-def build(ctx, rng, jname, axis, kinds, quats):
+def build(ctx, rng, jname, axis, kinds, quats, generic_basis=False):
     """returns (system, joint, subs, B_r, A_K, d2) with the joint defined at the subsystems' q0"""
     from cardillo import System
     from cardillo.constraints import Spherical, RigidConnection, Revolute, Prismatic, Cylindrical, Planarizer, FixedDistance
@@ -232,6 +232,8 @@ def build(ctx, rng, jname, axis, kinds, quats):
     xis = dict(xi1=subs[0].xi, xi2=subs[1].xi)
     r_OJ0 = iv()
     A_IJ0 = octahedral_group()[rng.randrange(24)].astype(float)
+    if generic_basis:        # a joint basis that is not aligned with the bodies: a rational rotation from an integer quaternion
+        A_IJ0 = quat_to_matrix(GEN_QUATS[rng.randrange(len(GEN_QUATS))])
     d2 = 0
     if jname == "FixedDistance":
         B1 = iv(-1, 2) if pose0[0][1] is not None else np.zeros(3)
@@ -340,6 +342,108 @@ def record(ctx, rid, rng, system, joint, subs, B_r, A_K, jname, d2, where, given
     return rec, w
 
 
+# ------------------------------------------------------------------------------------------ generic (rational) orientations
+GEN_QUATS = [np.array(p, dtype=float) for p in ((2, 1, 0, 0), (1, 0, 2, 0), (1, 1, 1, 0), (1, -1, 0, 1), (2, 0, 0, -1), (0, 1, 2, 0), (1, 0, -1, 1))]
+GEN_CANDS = sorted(c for c in {2 ** a * 3 ** b * 5 ** c_ * 7 ** d for a in range(9) for b in range(5) for c_ in range(5) for d in range(2)} if c <= 2 ** 19)
+
+
+def sample_generic(sub, rng):
+    """state of a rigid body at a non-octahedral rational orientation with INTEGER inertial angular velocity and acceleration"""
+    iv = lambda lo=-2, hi=3: np.array([rng.randint(lo, hi) for _ in range(3)], dtype=float)
+    if sub.kind != "rigid":
+        return sub.sample(rng)
+    P = GEN_QUATS[rng.randrange(len(GEN_QUATS))] * rng.choice([1.0, 1.0, -1.0])
+    A = quat_to_matrix(P)
+    O = iv(-2, 2); Y = iv(-1, 2)
+    return np.concatenate([iv(), P]), np.concatenate([iv(), A.T @ O]), np.concatenate([iv(), A.T @ Y])
+
+
+def record_generic(ctx, rid, rng, system, joint, subs, B_r, A_K, jname, d2, where):
+    """as record(), at rational orientations: positions / velocities / accelerations are scaled by S, the joint bases by s1, s2, every derivative
+    direction by a factor of its own; the kernel's polynomials are homogeneous in each of these groups, so every component of every level
+    scales by a known factor (fixed distance S^2, translation S, projected translation S s1, rotation pair s1 s2)"""
+    t = max(s.t_eval for s in subs)
+    st = [sample_generic(s, rng) for s in subs]
+    q = np.concatenate([x[0] for x in st]); u = np.concatenate([x[1] for x in st]); ud = np.concatenate([x[2] for x in st])
+    nq = [len(x[0]) for x in st]; nu = [len(x[1]) for x in st]
+    K = [kinematics(subs[i].obj, t, st[i][0], st[i][1], st[i][2], subs[i].xi, B_r[i], A_K[i]) for i in range(2)]
+    w = dict(where, t=t, q=q.tolist(), u=u.tolist(), u_dot=ud.tolist(), orientation="generic")
+    I = lambda x, what, sc=1.0: ints(ctx, x, what, w, sc)
+    Z3, ZM = [0, 0, 0], [[0, 0, 0]] * 3
+    S = find_scale([K[0]["r"], K[1]["r"], K[0]["v"], K[1]["v"], K[0]["a"], K[1]["a"]], GEN_CANDS)
+    sE = [find_scale([K[i]["E"]], GEN_CANDS) for i in range(2)]
+    if S is None or None in sE:
+        raise OffLattice(f"joint points / bases are not rational with small denominators at {w}")
+    jd = jdesc(joint, jname, d2 * S * S)
+    rec = dict(id=rid, j=jd)
+    cs = np.array(([S * S] if jd["fd"] else []) + ([S] * 3 if jd["full"] else []) + [S * sE[0]] * len(jd["axes"]) + [sE[0] * sE[1]] * len(jd["pairs"]), dtype=float)
+    if np.max(cs) > LIM:
+        raise TooBig("component scales")
+    rec["X"] = dict(r1=I(K[0]["r"], "r_OJ1", S), r2=I(K[1]["r"], "r_OJ2", S), E1=I(K[0]["E"], "A_IJ1", sE[0]), E2=I(K[1]["E"], "A_IJ2", sE[1]))
+    rec["U"] = dict(v1=I(K[0]["v"], "v_J1", S), v2=I(K[1]["v"], "v_J2", S), O1=I(K[0]["O"], "Omega1"), O2=I(K[1]["O"], "Omega2"))
+    rec["A"] = dict(a1=I(K[0]["a"], "a_J1", S), a2=I(K[1]["a"], "a_J2", S), Y1=I(K[0]["Y"], "Psi1"), Y2=I(K[1]["Y"], "Psi2"))
+    la = np.array([rng.randint(-2, 3) or 1 for _ in range(joint.nla_g)], dtype=float)
+    L = float(np.lcm.reduce(np.round(cs).astype(np.int64))) if len(cs) else 1.0
+    rec["la"] = I(la * L / cs, "la")
+    g = np.atleast_1d(joint.g(t, q.copy())); gd = np.atleast_1d(joint.g_dot(t, q.copy(), u.copy()))
+    gdd = np.atleast_1d(joint.g_ddot(t, q.copy(), u.copy(), ud.copy()))
+    W = np.asarray(joint.W_g(t, q.copy())).reshape(sum(nu), -1)
+    g_q = np.asarray(joint.g_q(t, q.copy())).reshape(-1, sum(nq))
+    gd_q = np.asarray(joint.g_dot_q(t, q.copy(), u.copy())).reshape(-1, sum(nq))
+    gd_u = np.asarray(joint.g_dot_u(t, q.copy())).reshape(-1, sum(nu))
+    Wla_q = np.asarray(joint.Wla_g_q(t, q.copy(), la if jname != "FixedDistance" else la[0])).reshape(sum(nu), sum(nq))
+    if len(g) != len(cs):
+        raise OffLattice(f"g has {len(g)} components, the joint description {len(cs)} at {w}")
+    rec["g"] = I(g * cs, "g"); rec["gdot"] = I(gd * cs, "g_dot"); rec["gddot"] = I(gdd * cs, "g_ddot"); rec["ddot"] = True
+    kuv = [[find_scale([S * K[b]["udirs"][jx]["v"], K[b]["udirs"][jx]["O"]], GEN_CANDS) for jx in range(nu[b])] for b in range(2)]
+    if any(x is None for l_ in kuv for x in l_):
+        raise OffLattice(f"velocity directions are not rational with small denominators at {w}")
+    qd, kq = [], []
+    for b in range(2):
+        for k in range(nq[b]):
+            d = K[b]["qdirs"][k]
+            col = sum(nq[:b]) + k
+            # the mixed second derivatives along (u[j], q[k]) are scaled by ku[j] kq[k]: kq[k] has to clear their denominators as well
+            mixed = [kuv[b][jx] * x for jx in range(nu[b]) for x in (S * K[b]["dd"][jx][k]["v"], K[b]["dd"][jx][k]["O"])]
+            sc = find_scale([S * d["r"], sE[b] * d["E"], S * d["v"], d["O"]] + mixed, GEN_CANDS)
+            if sc is None:
+                raise OffLattice(f"derivative directions of subsystem {b + 1} along q[{k}] are not rational with small denominators at {w}")
+            kq.append(sc)
+            dX = dict(r1=Z3, r2=Z3, E1=ZM, E2=ZM); dV = dict(v1=Z3, v2=Z3, O1=Z3, O2=Z3)
+            dX[f"r{b+1}"] = I(d["r"], "r_OP_q", sc * S); dX[f"E{b+1}"] = I(d["E"], "A_IB_q", sc * sE[b])
+            dV[f"v{b+1}"] = I(d["v"], "v_P_q", sc * S); dV[f"O{b+1}"] = I(d["O"], "Omega_q", sc)
+            qd.append(dict(dX=dX, dV=dV, gq=I(g_q[:, col] * cs, "g_q", sc), gdotq=I(gd_q[:, col] * cs, "g_dot_q", sc)))
+    udl, ku = [], []
+    for b in range(2):
+        for jx in range(nu[b]):
+            d = K[b]["udirs"][jx]
+            row = sum(nu[:b]) + jx
+            sc = find_scale([S * d["v"], d["O"]], GEN_CANDS)
+            if sc is None:
+                raise OffLattice(f"velocity directions of subsystem {b + 1} along u[{jx}] are not rational with small denominators at {w}")
+            ku.append(sc)
+            dV = dict(v1=Z3, v2=Z3, O1=Z3, O2=Z3)
+            dV[f"v{b+1}"] = I(d["v"], "J_P", sc * S); dV[f"O{b+1}"] = I(d["O"], "J_R", sc)
+            udl.append(dict(dV=dV, w=I(W[row, :] * cs, "W_g", sc), gdotu=I(gd_u[:, row] * cs, "g_dot_u", sc)))
+    wla = []
+    for bj in range(2):
+        for jx in range(nu[bj]):
+            row = sum(nu[:bj]) + jx
+            for bk in range(2):
+                for k in range(nq[bk]):
+                    col = sum(nq[:bk]) + k
+                    f = ku[row] * kq[col]
+                    if f * L > LIM:
+                        raise TooBig("Wla scale")
+                    ddV = dict(v1=Z3, v2=Z3, O1=Z3, O2=Z3)
+                    if bj == bk:
+                        d = K[bj]["dd"][jx][k]
+                        ddV[f"v{bj+1}"] = I(d["v"], "J_P_q", f * S); ddV[f"O{bj+1}"] = I(d["O"], "J_R_q", f)
+                    wla.append(dict(j=row + 1, k=col + 1, ddV=ddV, val=I([Wla_q[row, col]], "Wla_g_q", f * L)[0]))
+    rec["qdirs"] = qd; rec["udirs"] = udl; rec["wla"] = wla
+    return rec, w
+
+
 PAIRINGS = [("origin", "rigid"), ("rigid", "rigid"), ("tframe", "rigid"), ("rigid", "rframe"), ("rframe", "rigid"), ("rigid", "tframe")]
 PM_PAIRINGS = [("point", "rigid"), ("rigid", "point"), ("point", "point"), ("tframe", "point")]
 ROD_PAIRINGS = [("rod1", "rod0"), ("rigid", "rod0"), ("rod1", "rigid"), ("origin", "rodm"), ("rod0", "rod1")]
@@ -409,6 +513,45 @@ def run(ctx):
                     records.append(rec)
                     wheres[rid] = w
                     counts[jname] = counts.get(jname, 0) + 1
+    # generic (rational, not axis-aligned) orientations of bodies and joint bases: rigid bodies and the origin
+    ngen = 0
+    for kinds in (("origin", "rigid"), ("rigid", "rigid")):
+        for jname, axis in joint_specs():
+            for rep in range(2 if ctx.thorough else 1):
+                where = dict(joint=jname, axis=axis, subsystems=list(kinds), placement="generic joint basis")
+                try:
+                    b = None
+                    for _ in range(20):
+                        b = build(ctx, rng, jname, axis, kinds, quats, generic_basis=True)
+                        if b is not None:
+                            break
+                    if b is None:
+                        continue
+                    system, joint, subs, B_r, A_K, d2 = b
+                    q0 = np.concatenate([s.q0() for s in subs])
+                    g0 = np.atleast_1d(joint.g(system.t0, q0))
+                    ninit += 1
+                    if not (np.max(np.abs(g0)) <= 1e-12):
+                        ctx.violation(f"{jname}:defined-config", f"{where}: g(t0, q0) = {g0.tolist()} in the configuration the joint was defined in", where)
+                except Exception as ex:
+                    ctx.violation(f"{jname}:{'-'.join(kinds)}:build", f"building/assembling {where} raised {type(ex).__name__}: {ex}", where)
+                    continue
+                for si in range(nstates):
+                    rid = len(records) + 1
+                    try:
+                        rec, w = record_generic(ctx, rid, rng, system, joint, subs, B_r, A_K, jname, d2, where)
+                    except TooBig:
+                        skipped += 1
+                        continue
+                    except OffLattice as ex:
+                        ctx.violation(f"{jname}:{'-'.join(kinds)}:generic:off-lattice", str(ex), where)
+                        continue
+                    except Exception as ex:
+                        ctx.violation(f"{jname}:{'-'.join(kinds)}:generic:raises", f"evaluating {where} raised {type(ex).__name__}: {ex}", where)
+                        continue
+                    records.append(rec); wheres[rid] = w
+                    counts[jname + "(generic)"] = counts.get(jname + "(generic)", 0) + 1
+                    ngen += 1
     if not records:
         raise tlc.MachineryError("no joint records produced")
     # self-test of the binding (section 3.4): two corrupted copies of the first record must be rejected
